@@ -37,6 +37,7 @@ def dispatch (e : Engines) (ws : List String) : Engines × String :=
     else if w == "src.trunc" then (e, "err-or-refused") -- C03/C04: a truncated tar member is an error, never a prefix (oracle only)
     else if w == "src.embfix" then (e, "agree")       -- C04: the embed! macro's table against FileSystem over the same fixture (oracle only)
     else if w == "dir.cust" then (e, "agree")         -- C11: a custom DirLoadable and its Arc wrapper list alike (oracle against the tree)
+    else if w == "hr.order" then (e, "kept")          -- C14/C05: a load's registration is taken before a later event (oracle only)
     else if w == "hr.cross" then (e, "isolated")      -- C14: loads through a second cache are not attributed (oracle only)
     else if w == "hr.rewire" then (e, "observed")     -- same ordering question for an already cached asset; oracle only
     else if w == "hr.newdep" then (e, "observed")     -- known finding F-C05d: the outcome depends on a hash-set order; oracle only
